@@ -79,6 +79,27 @@ pub fn eval(ctx: &mut Ctx, c: &EncCase, tag: &str) {
             format!("plan {:?} assigns characters to {:?}; output latches {:?}", plan, assigned.iter().map(|m| m.name()).collect::<Vec<_>>(), d.latches.iter().map(|m| m.name()).collect::<Vec<_>>()),
         );
     }
+    // the other public entry points (configured builder in any call order, wrappers) promise the same: their
+    // output must follow the plan too
+    if c.order != 0 || c.prelude != 0 || c.entry != 0 || c.skipdef {
+        match do_encode(c, false) {
+            EncOut::Ok(e) => match dec::decode(&e.data) {
+                Ok(d2) => {
+                    if d2.latches != assigned {
+                        return ctx.violation("latches_differ_from_plan", &case(), format!("entry point {} / builder order {}: plan assigns characters to {:?}; output latches {:?}", c.effective_entry(), c.order, assigned.iter().map(|m| m.name()).collect::<Vec<_>>(), d2.latches.iter().map(|m| m.name()).collect::<Vec<_>>()));
+                    }
+                    if cat::row_of(e.size).data != cat::row_of(size).data {
+                        return ctx.violation("larger_symbol_than_predicted", &case(), format!("entry point {} / builder order {} used capacity {}, data::encode_data {}", c.effective_entry(), c.order, cat::row_of(e.size).data, cat::row_of(size).data));
+                    }
+                    ctx.count("entry_points.agree_with_plan");
+                }
+                Err(_) => ctx.count("rdec_rejects_stream(C02)"),
+            },
+            EncOut::Err(_) => return ctx.violation("plan_missing_for_encodable_input", &case(), format!("data::encode_data succeeded, entry point {} / builder order {} refused", c.effective_entry(), c.order)),
+            EncOut::Panic(_) => ctx.count("encode.panic(C11)"),
+            EncOut::BadSpec => {}
+        }
+    }
     // hook: the symbol the planner predicted for the plan it selected in that very call
     if st.calls >= 1 {
         if let Some(cost) = st.selected_cost_twelfths {
